@@ -355,6 +355,46 @@ Section Step2.
       destruct (T1 _ _ Hx) as (x' & Hx' & _ & Hs' & _). exists j. split; [exact Hj|]. exists x'. split; congruence.
     - intros j x' Hn. destruct (T2 _ _ Hn) as (x & Hx & Hc & _). rewrite Hc. eapply i_mux; eauto.
   Qed.
+
+  Lemma step_ServeSkip s s' sid : Inv s -> step_core s (LServeSkip sid) = Some s' -> Inv s'.
+  Proof.
+    intros I H. unfold step_core in H. destruct (crashed s); [discriminate|].
+    destruct (srv_at s sid) as [sv0|] eqn:Es; [|discriminate]. unfold srv_at in Es.
+    destruct (server s) eqn:Esrv0; [discriminate|]. clear Esrv0.
+    destruct (_ && _) eqn:Eg; [|discriminate]. apply andb_true_iff in Eg as [Esh _].
+    injection H as <-.
+    destruct I. unfold unshut, is_reload in *. open_state s.
+    pose proof (upd_pc_cases svs sid SvExited) as T2. pose proof (upd_pc_fwd svs sid SvExited) as T1.
+    constructor; unfold unshut, is_reload; cbn; auto.
+    - intros Hr. destruct (i_early Hr) as (-> & _). destruct sid; discriminate.
+    - intros Hr. destruct (i_ret Hr) as (A & B & C). split; [exact A|]. split; [exact B|].
+      intros j x' Hn. destruct (T2 _ _ Hn) as (x & Hx & _ & Hs & _). rewrite Hs. eauto.
+    - intros j (x' & Hn & Hs). destruct (T2 _ _ Hn) as (x & Hx & _ & Hs' & _).
+      apply i_live. exists x. split; congruence.
+    - intros j Hj. destruct (i_srv j Hj) as [x Hx]. destruct (T1 _ _ Hx) as (x' & Hx' & _). eauto.
+    - intros j Hk. destruct (i_probe j Hk) as (x & Hx & Hs).
+      destruct (T1 _ _ Hx) as (x' & Hx' & _ & Hs' & _). exists x'. split; congruence.
+    - intros j Hk. destruct (i_wait j Hk) as (A & x & Hx & Hs).
+      destruct (T1 _ _ Hx) as (x' & Hx' & _ & Hs' & _). split; [exact A|]. exists x'. split; congruence.
+    - intros j x' Hn. destruct (T2 _ _ Hn) as (x & Hx & _ & Hs & [[-> Hp]|[Hne ->]]).
+      + right. right. split; [exact Hp|]. rewrite Hs. congruence.
+      + eapply i_pc; eauto.
+    - intros a j Hin. destruct (i_net a j Hin) as (x & Hx & Hs & Hp & Ha).
+      destruct (T1 _ _ Hx) as (x' & Hx' & Hc & Hs' & [[-> Hp']|[Hne ->]]).
+      + congruence.
+      + exists x. auto.
+    - intros j x' Hn Hs Hp. destruct (T2 _ _ Hn) as (x & Hx & Hc & Hs' & [[-> Hp']|[Hne ->]]).
+      + congruence.
+      + eapply i_bound; eauto.
+    - intros j x' Hn Hs Hk1 Hk2. destruct (T2 _ _ Hn) as (x & Hx & Hc & Hs' & [[-> Hp']|[Hne ->]]).
+      + congruence.
+      + eapply i_listen; eauto.
+    - intros j x' Hn Hs Hk. destruct (T2 _ _ Hn) as (x & Hx & Hc & Hs' & _).
+      rewrite Hc. eapply i_cfg; eauto; congruence.
+    - intros Hp. destruct (i_has Hp) as (j & Hj & x & Hx & Hs).
+      destruct (T1 _ _ Hx) as (x' & Hx' & _ & Hs' & _). exists j. split; [exact Hj|]. exists x'. split; congruence.
+    - intros j x' Hn. destruct (T2 _ _ Hn) as (x & Hx & Hc & _). rewrite Hc. eapply i_mux; eauto.
+  Qed.
   Lemma step_BindOk s s' sid : Inv s -> step_core s (LBindOk sid) = Some s' -> Inv s'.
   Proof.
     intros I H. unfold step_core in H. destruct (crashed s); [discriminate|].
@@ -491,7 +531,9 @@ Section Step2.
     - eapply (step_contra s s' (LBindFail sid)); eauto.
     - eapply (step_contra s s' (LPushErr sid)); eauto.
     - eapply step_LasClosed; eauto.
+    - eapply step_ServeSkip; eauto.
     - eapply (step_contra s s' (LForeignFree a)); eauto.
+    - eapply step_frame; eauto; exact Logic.I.
     - eapply step_frame; eauto; exact Logic.I.
     - eapply step_frame; eauto; exact Logic.I.
     - eapply step_frame; eauto; exact Logic.I.
